@@ -122,8 +122,14 @@ def run(tier):
             for ri, rn in enumerate(h['runs']):
                 if rn['lazy'] or rn['cache'] or not rn['phased']:
                     continue
+                if rn['ign'] or rn['sel']['explicit']:
+                    continue
                 for oi, o in enumerate(rn['ops']):
-                    if o['op'] == 'get' and o['ans']:
+                    site = [x for x in e['sites'] if x['c'] == o['c'] and x['p'] == o['p']]
+                    # a plain SNV record without missing genotypes: its classification is unambiguous ("store")
+                    plain = site and len(site[0]['ref']) == 1 and all(len(a) == 1 for a in site[0]['alts']) and \
+                        all(a != '.' and len(a) == 1 for g in site[0]['gt'].values() for a in g)
+                    if o['op'] == 'get' and o['ans'] and plain:
                         cand = (i, hi, ri, oi)
                         break
                 if cand:
